@@ -154,23 +154,47 @@ def crosscheck_rendering(c: dict) -> str | None:
 # ---------------------------------------------------------------------------------------------------
 # running the real code
 # ---------------------------------------------------------------------------------------------------
-def run_case(c: dict) -> dict:
-    """Simulator(model[, y0]).simulate_to_steady_state(tolerance=, rel_norm=).get_result() projected."""
-    import numpy as np
+def first_case(c: dict) -> dict:
+    """History "ssupd": the network the FIRST steady-state search runs on -- same rates, influxes such that its
+    steady state is this case's initial state; it starts 3 units above that steady state."""
+    ys1 = [a + b for a, b in zip(c["ystar"], c["dev"])]
+    return dict(c, ystar=ys1, dev=[3] * len(ys1), prior="none")
+
+
+def _simulator(c: dict):
     from mxlpy import Simulator
-    from mxlpy.simulation import Simulation
 
     names = VARS[c["net"]]
     if c["user"]:
         model = build(c, other_defaults(c))
-        sim = Simulator(model, y0=dict(zip(names, y0_of(c))))
-    else:
-        model = build(c)
-        sim = Simulator(model)
+        return model, Simulator(model, y0=dict(zip(names, y0_of(c))))
+    model = build(c)
+    return model, Simulator(model)
+
+
+def run_case(c: dict) -> dict:
+    """Simulator(model[, y0]) [history] .simulate_to_steady_state(tolerance=, rel_norm=).get_result() projected."""
+    import numpy as np
+    from mxlpy.simulation import Simulation
+
+    names = VARS[c["net"]]
     tol = 1.0 / c["td"]
     obs: dict = {}
     prior = c.get("prior", "none")
-    if prior != "none":
+    segcases = [c]
+    if prior == "ssupd":
+        # steady state on the first network, then the influx parameters are updated to the case's own
+        c1 = first_case(c)
+        segcases = [c1, c]
+        model, sim = _simulator(c1)
+        sim.simulate_to_steady_state(tolerance=tol, rel_norm=bool(c["rel"]))
+        first = sim.get_result().value
+        if isinstance(first, Exception):
+            return {"kind": "first-search-failed", "detail": repr(first)[:200]}
+        sim.update_parameters(parameters(c))
+    else:
+        model, sim = _simulator(c)
+    if prior in ("sim", "simclear"):
         # the history of the case: an ordinary simulation over one loop step length succeeds first
         sim.simulate(STEP, steps=4)
         before = sim.get_result().value
@@ -198,56 +222,102 @@ def run_case(c: dict) -> dict:
     obs["kind"] = "value"
     var = val.get_variables(include_derived_variables=False, include_readouts=False, include_surrogate_variables=False)
     obs["rows"] = int(len(var))
+    obs["segments"] = len(val.raw_parameters)
     obs["t"] = float(var.index[-1])
     obs["state"] = [float(var.iloc[-1][n]) for n in names]
-    rhs = val.get_right_hand_side()
-    obs["rhs"] = [float(rhs.iloc[-1][n]) for n in names]
-    fl = val.fluxes.iloc[-1]
-    st = model.get_stoichiometries()
-    obs["nv"] = [float(sum(st.loc[n, r] * fl[r] for r in st.columns)) if n in st.index else 0.0 for n in names]
     obs["new_y0"] = [float(val.get_new_y0()[n]) for n in names]
-    obs["finite"] = bool(np.isfinite(obs["state"]).all())
+    obs["finite"] = bool(np.isfinite(var.to_numpy(dtype=float)).all())
+    # every steady-state point of the result (the last row; with history "ssupd" both rows), with the fluxes and
+    # derivatives REPORTED for it, and what a fresh model holding that segment's parameters says at that state
+    rhs = val.get_right_hand_side()
+    flx = val.fluxes
+    st = model.get_stoichiometries()
+    rows = list(range(len(var))) if prior == "ssupd" else [len(var) - 1]
+    if prior == "ssupd" and len(var) != 2:
+        rows = [len(var) - 1]
+    pts = []
+    for j, r in enumerate(rows):
+        sc_ = segcases[j] if prior == "ssupd" and len(rows) == 2 else c
+        state = {n: float(var.iloc[r][n]) for n in names}
+        fl = {k_: float(v) for k_, v in flx.iloc[r].items()}
+        fresh = build(sc_)
+        want = {k_: float(v) for k_, v in fresh.get_fluxes(variables=state, time=float(var.index[r])).items()}
+        pts.append({"t": float(var.index[r]), "state": [state[n] for n in names], "fluxes": fl, "closed_form": want,
+                    "rhs": [float(rhs.iloc[r][n]) for n in names],
+                    "nv": [float(sum(st.loc[n, q] * fl[q] for q in st.columns)) if n in st.index else 0.0 for n in names]})
+    obs["points"] = pts
     return obs
 
 
-def judge(pred: dict, obs: dict) -> dict | None:
-    """pred: {case, outcome in ok|fail, slo, shi}. None = conforms."""
-    c = pred["case"]
-    if obs["kind"] == "prior-failed":
-        return {"what": "the ordinary simulation before the steady-state search failed", "observed": obs}
-    if pred["outcome"] == "fail":
-        if obs["kind"] != "error":
-            return {"what": "a state is presented as steady for a network without steady state", "observed": obs}
-        if not obs["unwrap_raises"] or obs["again"] != "error":
-            return {"what": "failure value is not stable / does not raise on unwrap", "observed": obs}
-        return None
-    if obs["kind"] != "value":
-        return {"what": "failure reported for a network with a stable steady state", "observed": obs}
-    want_rows = 1 + (obs.get("prior_rows", 0) if c.get("prior", "none") == "sim" else 0)
-    if not obs["finite"] or obs["rows"] != want_rows:
-        return {"what": "steady-state result is not the held rows plus one finite state", "expected_rows": want_rows,
-                "observed": obs}
-    if c.get("prior", "none") == "sim" and not obs["t"] > STEP:
-        return {"what": "the last row is not a point of the steady-state search", "observed": obs}
+def allowed_deviation(c: dict) -> list[float]:
     tol = 1.0 / c["td"]
     k = max(1, 2 ** c["m"] - 1)
-    allowed = []
     sc = scale(c)
+    out = []
     for ys, dv in zip(c["ystar"], c["dev"]):
         bound = tol * (ys + abs(dv)) * sc / k if c["rel"] else tol / k
-        allowed.append(1.01 * bound + 1e-6 * max(1.0, abs(ys) * sc) + 1e-9)
+        out.append(1.01 * bound + 1e-6 * max(1.0, abs(ys) * sc) + 1e-9)
+    return out
+
+
+def judge_point(c: dict, pt: dict, which: str) -> dict | None:
+    """One reported steady-state point against its segment's case: state, reported fluxes, balance."""
+    allowed = allowed_deviation(c)
     for i, (ys, a) in enumerate(zip(ystar_of(c), allowed)):
-        if abs(obs["state"][i] - ys) > a:
-            return {"what": "returned state is not the steady state", "component": i, "analytic": ys,
-                    "observed_value": obs["state"][i], "allowed_deviation": a, "obs": obs}
-        if obs["new_y0"][i] != obs["state"][i]:
-            return {"what": "get_new_y0 differs from the returned state", "observed": obs}
+        if abs(pt["state"][i] - ys) > a:
+            return {"what": "returned state is not the steady state", "point": which, "component": i, "analytic": ys,
+                    "observed_value": pt["state"][i], "allowed_deviation": a}
+    for name, want in pt["closed_form"].items():
+        got = pt["fluxes"].get(name)
+        if got is None or abs(got - want) > 1e-9 * max(1.0, abs(want)):
+            return {"what": "reported flux is not the model's flux at that point under its segment's parameters",
+                    "point": which, "flux": name, "closed_form": want, "reported": got}
     kmax = (c["m"] + c["m2"]) * LN2 / STEP
     lim = kmax * sum(allowed) + 1e-12
     for i in range(len(c["ystar"])):
-        if abs(obs["rhs"][i]) > lim or abs(obs["nv"][i]) > lim:
-            return {"what": "fluxes do not balance at the reported steady state", "component": i,
-                    "rhs": obs["rhs"][i], "N.v": obs["nv"][i], "limit": lim}
+        if abs(pt["rhs"][i]) > lim or abs(pt["nv"][i]) > lim:
+            return {"what": "fluxes do not balance at the reported steady state", "point": which, "component": i,
+                    "rhs": pt["rhs"][i], "N.v": pt["nv"][i], "limit": lim}
+    return None
+
+
+def judge(pred: dict, obs: dict) -> dict | None:
+    """pred: {case, outcome in ok|fail, slo, shi, undefined}. None = conforms."""
+    c = pred["case"]
+    prior = c.get("prior", "none")
+    if obs["kind"] == "prior-failed":
+        return {"what": "the ordinary simulation before the steady-state search failed", "observed": obs}
+    if obs["kind"] == "first-search-failed":
+        return {"what": "failure reported for a network with a stable steady state (first search of the history)",
+                "observed": obs}
+    if pred["outcome"] == "fail":
+        if obs["kind"] == "error":
+            if not obs["unwrap_raises"] or obs["again"] != "error":
+                return {"what": "failure value is not stable / does not raise on unwrap", "observed": obs}
+            return None
+        if not pred.get("undefined"):
+            return {"what": "a state is presented as steady for a network without steady state", "observed": obs}
+        # the convergence norm of this network is undefined in every window (an identically-zero variable under the
+        # relative norm): the specified loop can only fail, but the network HAS a steady state -- a success is
+        # accepted if and only if it is that steady state (an undefined norm must not be taken for convergence)
+    elif obs["kind"] != "value":
+        return {"what": "failure reported for a network with a stable steady state", "observed": obs}
+    want_rows = 1 + (obs.get("prior_rows", 0) if prior == "sim" else 0) + (1 if prior == "ssupd" else 0)
+    if not obs["finite"] or obs["rows"] != want_rows:
+        return {"what": "steady-state result is not the held rows plus one finite state", "expected_rows": want_rows,
+                "observed": obs}
+    if prior == "sim" and not obs["t"] > STEP:
+        return {"what": "the last row is not a point of the steady-state search", "observed": obs}
+    if obs["segments"] != (2 if prior in ("sim", "ssupd") else 1):
+        return {"what": "number of segments", "observed": obs}
+    if obs["new_y0"] != obs["state"]:
+        return {"what": "get_new_y0 differs from the returned state", "observed": obs}
+    cases = [first_case(c), c] if prior == "ssupd" else [c]
+    for j, (cj, pt) in enumerate(zip(cases, obs["points"])):
+        d = judge_point(cj, pt, f"{j + 1}/{len(cases)}")
+        if d is not None:
+            d["obs"] = obs
+            return d
     return None
 
 
@@ -348,12 +418,22 @@ def random_case(rnd: random.Random) -> dict:
                 "rel": rel, "user": user, "u": rnd.choice([0, 0, 3, 6]),
                 "prior": rnd.choice(["none", "none", "sim", "simclear"])}
 
+    def history(c):
+        """steady state / parameter update / steady state, where the family is exact for it"""
+        ok = all(a + b >= 1 and b != 0 for a, b in zip(c["ystar"], c["dev"]))
+        if ok and c["u"] == 0 and rnd.random() < 0.3:
+            c["prior"] = "ssupd"
+        return c
+
     if net == "pool1":
         ys = rnd.randint(1, 31)
-        return case("relax", rnd.randint(1, 4), 0, [ys], [rnd.randint(-ys, 32)], [0])
+        return history(case("relax", rnd.randint(1, 4), 0, [ys], [rnd.randint(-ys, 32)], [0]))
     if net == "pools2":
         ys = [rnd.randint(1, 31), rnd.randint(1, 31)]
-        return case("relax", rnd.randint(1, 4), 0, ys, [rnd.randint(-ys[0], 32), rnd.randint(-ys[1], 32)], [0, 0])
+        dev = [rnd.randint(-ys[0], 32), rnd.randint(-ys[1], 32)]
+        if rnd.random() < 0.25:          # a pool that is never fed and starts empty: identically zero
+            ys[1], dev[1] = 0, 0
+        return history(case("relax", rnd.randint(1, 4), 0, ys, dev, [0, 0]))
     if net == "chain2":
         m, m2 = rnd.choice([(1, 2), (1, 3), (2, 3), (2, 4), (1, 4), (3, 4)])
         xs = rnd.choice([12, 24])
@@ -381,4 +461,4 @@ def random_case(rnd: random.Random) -> dict:
     if net == "feed2":
         return dict(case("lin", rnd.randint(1, 3), 0, [1, rnd.randint(1, 8)], [0, 0], [0, rnd.randint(1, 4)]), td=td,
                     u=small)
-    return dict(case("grow", 1, 0, [0], [rnd.randint(1, 4)], [0]), td=td, u=small)
+    return dict(case("grow", rnd.choice([1, 1, 2, 3, 4]), 0, [0], [rnd.randint(1, 4)], [0]), td=td, u=small)
